@@ -180,16 +180,37 @@ def gen_arbitrary(rng, tier, ctx):
     return cases
 
 
+def dcode_looks(odex, size, data):
+    """the same code through a DCode object, asked three times: [number of instructions, how it ended] per look"""
+    from androguard.core import dex
+    cm = c01.MockCM()
+    cm.get_odex_format = lambda: odex
+    dc = dex.DCode(cm, 0, size, bytearray(data))
+    looks = []
+    for _ in range(3):
+        n, end = 0, None
+        try:
+            for obj in dc.get_instructions():
+                n += 1
+        except dex.InvalidInstruction:
+            end = "InvalidInstruction"
+        except struct.error:
+            end = "StructError"
+        looks.append([n, end])
+    first = None
+    return [looks, first]
+
+
 def impl_arbitrary(case):
     odex, size, data = case
-    return run_sweep(odex, size, data)
+    return run_sweep(odex, size, data) + [dcode_looks(odex, size, data)]
 
 
 def oracle_arbitrary(case, res):
     odex, size, data = case
     if isinstance(res, Err):
         return "the sweep did not terminate normally: %s" % res.name
-    got, end = res
+    got, end = res[0], res[1]
     limit = min(len(data), 2 * size)
     for off, k, ln, raw in got:
         if ln < 2:
@@ -201,6 +222,16 @@ def oracle_arbitrary(case, res):
                 off, raw.hex() if isinstance(raw, bytes) else raw, data[off:off + ln].hex())
     if end is not None and end.name != "InvalidInstruction":
         return "the sweep ended with %s instead of InvalidInstruction (code %s, declared size %d units)" % (end.name, data.hex()[:60], size)
+    # the same code through DCode.get_instructions: every look has to end the way the sweep ends - an invalid instruction is
+    # reported each time, not only the first time
+    looks, first = res[2]
+    want_end = None if end is None else end.name
+    for k, (n, e) in enumerate(looks):
+        if e != want_end:
+            return "DCode.get_instructions, look %d: %d instructions ending with %s; the sweep over the same code yields %d and ends with %s (code %s)" % (
+                k + 1, n, e, len(got), want_end, data.hex()[:60])
+        if want_end is None and n != len(got):
+            return "DCode.get_instructions, look %d: %d instructions, the sweep yields %d" % (k + 1, n, len(got))
     return None
 
 
@@ -230,5 +261,6 @@ STREAMS = [
      "coq_obs": "obs_sweep", "model_vo": "Dex/SweepModel.vo", "pinned": False, "oracle": oracle_assembled, "stats": stats_assembled, "shard": 6},
     {"name": "arbitrary", "gen": gen_arbitrary, "impl": impl_arbitrary, "coq_header": COQ_HEADER, "coq_type": "(bool * Z) * list Z",
      "coq_input": lambda c: "((%s, %s), %s)" % (coq_bool(c[0]), z(c[1]), zlist(list(c[2]))),
-     "coq_obs": "obs_sweep", "model_vo": "Dex/SweepModel.vo", "pinned": False, "oracle": oracle_arbitrary, "stats": stats_arbitrary, "shard": 40},
+     "coq_obs": "obs_sweep", "model_vo": "Dex/SweepModel.vo", "pinned": False, "oracle": oracle_arbitrary, "stats": stats_arbitrary, "shard": 40,
+     "canon": lambda r: r[:2]},
 ]
